@@ -9,6 +9,7 @@ ops   : ("p", k, side, ks)        k-th action the model predicts to change the s
         ("n", c, k, side, ks)     adaptive near-miss: c-th available gate class, k-th action in it
         ("f", i, side, ks)        flat index i mod n
         ("d", k, side, ks)        depth-first progress: act at / push outwards from the most recently compromised host
+        ("i", k, side, ks)        redundant-but-applicable exploit / escalation (all gates pass, model predicts no change)
         ("r", side, ks)           repeat the previous action
         ("o",)                    no-op (NoOp action object)
         ("x",)                    reset
@@ -249,6 +250,18 @@ class Harness:
             cands = [i for i, a in enumerate(self.acts) if M.changes_state(self.spec, mst, a)]
             if not cands:
                 cands = list(range(n))
+            return self.acts[cands[op[1] % len(cands)]]
+        if kind == "i":
+            # redundant-but-applicable: every gate passes, yet the model predicts no state change
+            # (re-exploit of a compromised host, USER-granting action on a ROOT host, a second
+            # escalation ...) - the probes for "never decreases / paid once / never fails by chance"
+            cands = []
+            for i, a in enumerate(self.acts):
+                if a.kind in ("exploit", "privesc") and mst[a.target][0] and not M.gates(self.spec, mst, a):
+                    if M.step(self.spec, mst, a, "lo").state == mst:
+                        cands.append(i)
+            if not cands:
+                cands = [i for i, a in enumerate(self.acts) if M.changes_state(self.spec, mst, a)] or list(range(n))
             return self.acts[cands[op[1] % len(cands)]]
         if kind == "d":
             # depth-first: stay at the most recently compromised host (scan /
